@@ -267,23 +267,27 @@ def wfSpec (bits : Nat) : Option FormatSpec → Bool
 mutual
 def wfPat (bits : Nat) (inArg : Bool) : Pat → Bool
   | .lit l => wfLit inArg l
-  | .leaf k long spec => !(k == .threadId && long) && wfSpec bits spec
+  | .leaf _ _ spec => wfSpec bits spec
   | .date _ args spec =>
     (match args with
       | none => true
       | some (f, _) => f.all (wfLit true)) && wfSpec bits spec
   | .mdc _ key dflt spec =>
-    !key.isEmpty && key.all plainLit &&
+    !key.isEmpty && key.all (wfLit true) &&
     (match dflt with
       | none => true
-      | some d => !d.isEmpty && d.all plainLit) && wfSpec bits spec
+      | some d => !d.isEmpty && d.all (wfLit true)) && wfSpec bits spec
   | .group _ _ body spec => wfPats bits true body && wfSpec bits spec
 def wfPats (bits : Nat) (inArg : Bool) : List Pat → Bool
   | [] => true
   | p :: ps => wfPat bits inArg p && wfPats bits inArg ps
 end
 
-/-- well-formed pattern (top level) for a profile's word size -/
+/-- well-formed pattern (top level) for a profile's word size: special characters escaped; inside a
+parenthesised argument `)` written `\\)` (F6a, still a finding: `))` closes the argument); MDC key
+and default non-empty literal text (escaped specials allowed since the repair of F6b); every
+formatter and alias, `thread_id` included (since the repair of F5); widths fit the word and
+`min_width ≤ max_width`. -/
 def WF (P : Profile) (ps : List Pat) : Prop := wfPats P.wordBits false ps = true
 
 instance (P : Profile) (ps : List Pat) : Decidable (WF P ps) := by unfold WF; infer_instance
@@ -299,16 +303,32 @@ def dfltChars : Option (List Lit) → List Char
   | none => []
   | some d => litChars d
 
+/-- a date formatter: an error chunk when chrono's item parser rejects the format (repair of F4) -/
+def dateChunkOf (B : Build) (args : Option (List Lit × Option Bool)) (spec : Option FormatSpec) : Chunk :=
+  if B.dateCheck && !B.dateOk (dateRequest args).1 then .error (eInvalidDateFormat (dateRequest args).1)
+  else .leaf (.time (dateRequest args).1 (dateRequest args).2) (paramsOf spec)
+
 mutual
-def chunkOf : Pat → Chunk
+def chunkOf (B : Build) : Pat → Chunk
   | .lit l => .text [l.c]
   | .leaf k _ spec => .leaf k.leaf (paramsOf spec)
-  | .date _ args spec => .leaf (.time (dateRequest args).1 (dateRequest args).2) (paramsOf spec)
+  | .date _ args spec => dateChunkOf B args spec
   | .mdc _ key dflt spec => .leaf (.mdc (litChars key) (dfltChars dflt)) (paramsOf spec)
-  | .group k _ body spec => .group k (chunksOf body) (paramsOf spec)
-def chunksOf : List Pat → List Chunk
+  | .group k _ body spec => .group k (chunksOf B body) (paramsOf spec)
+def chunksOf (B : Build) : List Pat → List Chunk
   | [] => []
-  | p :: ps => chunkOf p :: chunksOf ps
+  | p :: ps => chunkOf B p :: chunksOf B ps
+end
+
+mutual
+/-- every date format of a pattern, at any depth (all are checked at construction) -/
+def allDatesPat : Pat → List (List Char)
+  | .date _ args _ => [(dateRequest args).1]
+  | .group _ _ body _ => allDatesPats body
+  | _ => []
+def allDatesPats : List Pat → List (List Char)
+  | [] => []
+  | p :: ps => allDatesPat p ++ allDatesPats ps
 end
 
 /-! ### aliases -/
@@ -336,8 +356,9 @@ def hasHighlightL : List Pat → Bool
   | p :: ps => hasHighlight p || hasHighlightL ps
 end
 
-/-- chrono accepts every date format the pattern renders in this build profile -/
-def DatesOk (env : Env) (ps : List Pat) : Prop :=
-  ∀ x ∈ datesPats env ps, env.strftimeOk x.1 x.2 = true
+/-- chrono accepts the pattern's date formats: its item parser every one of them (construction),
+its renderer those the pattern renders in this build profile (encode) -/
+def DatesOk (B : Build) (env : Env) (ps : List Pat) : Prop :=
+  (∀ f ∈ allDatesPats ps, B.dateOk f = true) ∧ ∀ x ∈ datesPats env ps, env.strftimeOk x.1 = true
 
 end Log4rs.Pattern.Parse
